@@ -4,7 +4,7 @@
 From Coq Require Import List ZArith Lia Bool Arith.
 From Coq Require Import Strings.Byte.
 From WH Require Import lib.Bytes gen.Extracted model.Vaa model.Processor model.ProcSpec model.System
-     proofs.VaaProofs proofs.QuorumProofs proofs.ProcessorProofs proofs.ProcC01Proofs proofs.ProcC02Proofs proofs.SystemProofs.
+     proofs.VaaProofs proofs.QuorumProofs proofs.ProcessorProofs proofs.ProcC01Proofs proofs.ProcC02Proofs proofs.ProcCleanupProofs proofs.SystemProofs.
 Import ListNotations.
 Open Scope Z_scope.
 
@@ -313,6 +313,112 @@ Proof.
 Qed.
 End Live1.
 
+(* ================================================================== 1b. "submitted" means: broadcast in an earlier step *)
+Section Pub.
+Variable recover : bytes -> bytes -> option bytes.
+Variable keccak : bytes -> bytes.
+Variable sign : bytes -> bytes.
+Variable own : addr.
+Variable gov_chain : Z.
+Variable gov_addr : bytes.
+Notation step := (Processor.step recover keccak sign own gov_chain gov_addr).
+Notation run := (Processor.run recover keccak sign own gov_chain gov_addr).
+Notation handle_obs := (Processor.handle_obs recover).
+Notation Inv1 := (ProcC01Proofs.Inv1 recover keccak).
+
+Definition fresh (h : bytes) (st : pstate) : Prop := forall e, alookup h (agg st) = Some e -> submitted e = false.
+
+Lemma handle_obs_submit h st ob e' : fresh h st ->
+  alookup h (agg (fst (handle_obs st ob))) = Some e' -> submitted e' = true ->
+  o_hash ob = h /\ existsb is_bcast (snd (handle_obs st ob)) = true.
+Proof.
+  intros Hf.
+  assert (Hst : alookup h (agg st) = Some e' -> submitted e' = true -> o_hash ob = h /\ existsb is_bcast (@nil out) = true).
+  { intros Hl Hs. rewrite (Hf e' Hl) in Hs. discriminate. }
+  unfold Processor.handle_obs.
+  destruct (Processor.rec recover (o_hash ob) (o_sig ob)) as [pk|]; [|exact Hst].
+  destruct (negb (bytes_eqb (bytes_to_address (o_addr ob)) pk)); [exact Hst|].
+  set (e := alookup (o_hash ob) (agg st)).
+  destruct (match e with Some e'0 => match gs_snap e'0 with Some g => Some g | None => cur st end | None => cur st end) as [g|]; [|exact Hst].
+  destruct (negb (Processor.memb (bytes_to_address (o_addr ob)) (keys g))); [exact Hst|].
+  set (e0 := match e with Some e'0 => e'0 | None => new_entry (clock st) end).
+  assert (He0 : o_hash ob = h -> submitted e0 = false).
+  { intros Eh. subst e0 e. rewrite Eh. destruct (alookup h (agg st)) as [ex|] eqn:El; [apply Hf; exact El|reflexivity]. }
+  set (e1 := set_esigs e0 (aset (bytes_to_address (o_addr ob)) (o_sig ob) (esigs e0))).
+  assert (Hq : forall outs, alookup h (agg (with_agg st (aset (o_hash ob) e1 (agg st)))) = Some e' -> submitted e' = true ->
+                 o_hash ob = h /\ existsb is_bcast outs = true).
+  { intros outs Hl Hs. cbn [with_agg agg] in Hl. rewrite alookup_aset in Hl. destruct (bytes_eqb_spec h (o_hash ob)) as [Eh|Nh].
+    - inversion Hl; subst e'. cbn [e1 set_esigs submitted] in Hs. rewrite He0 in Hs by (symmetry; exact Eh). discriminate.
+    - rewrite (Hf e' Hl) in Hs. discriminate. }
+  destruct (assemble (keys g) 0 (esigs e1)) as [sg|]; [|cbn [fst snd]; apply Hq].
+  destruct (our_vaa e1) as [v|]; [|cbn [fst snd]; apply Hq].
+  destruct (proc_local_quorum_reached _ _ && negb (submitted e1)); [|cbn [fst snd]; apply Hq].
+  destruct sg as [|s0 sg']; [cbn [fst snd]; apply Hq|].
+  cbn [fst snd agg]. intros Hl Hs. rewrite alookup_aset in Hl. destruct (bytes_eqb_spec h (o_hash ob)) as [Eh|Nh].
+  - split; [symmetry; exact Eh|reflexivity].
+  - rewrite (Hf e' Hl) in Hs. discriminate.
+Qed.
+
+Lemma fresh_ext h st st' : agg st' = agg st -> fresh h st -> fresh h st'.
+Proof. intros Ha Hf e He. rewrite Ha in He. apply Hf. exact He. Qed.
+
+Lemma bcast_sig_fresh h st v s tx chain : fresh h st -> fresh h (fst (Processor.broadcast_signature keccak own st v s tx chain)).
+Proof.
+  intros Hf e He. unfold Processor.broadcast_signature in He. cbn [fst agg] in He. rewrite alookup_aset in He.
+  destruct (bytes_eqb_spec h (Processor.dg keccak v)) as [Eh|_]; [|apply Hf; exact He].
+  inversion He; subst e. cbn [set_own submitted]. rewrite <- Eh.
+  destruct (alookup h (agg st)) as [ex|] eqn:El; [apply Hf; exact El|reflexivity].
+Qed.
+
+(* an entry becomes "submitted" only in the step that broadcasts its VAA *)
+Lemma step_submit h st o e' : KeysND st -> fresh h st ->
+  alookup h (agg (fst (step st o))) = Some e' -> submitted e' = true ->
+  bcast_for recover keccak sign own gov_chain gov_addr h st o = true.
+Proof.
+  intros ND Hf Hl Hs.
+  assert (Hcontra : forall st', fresh h st' -> alookup h (agg st') = Some e' -> False).
+  { intros st' Hf' Hl'. rewrite (Hf' e' Hl') in Hs. discriminate. }
+  unfold bcast_for, obs_of_op. destruct o as [g|t|m|v|ob|k|b|]; cbn [Processor.step] in Hl |- *.
+  - exfalso. apply (Hcontra _ Hf). exact Hl.
+  - exfalso. apply (Hcontra _ Hf). exact Hl.
+  - exfalso. destruct (handle_message_cases keccak sign own gov_chain gov_addr st m) as [[Hst _]|(g & _ & Hr)]; cbv zeta in *.
+    + rewrite Hst in Hl. apply (Hcontra _ Hf). exact Hl.
+    + rewrite Hr in Hl. eapply Hcontra; [|exact Hl]. apply bcast_sig_fresh. exact Hf.
+  - exfalso. unfold Processor.handle_injection in Hl. eapply Hcontra; [|exact Hl]. apply bcast_sig_fresh. exact Hf.
+  - destruct (handle_obs_submit h st ob e' Hf Hl Hs) as [Eh Hb]. rewrite Eh, bytes_eqb_refl, Hb. reflexivity.
+  - destruct (nth_error (loopq st) k) as [ob|]; [|exfalso; apply (Hcontra _ Hf); exact Hl].
+    match type of Hl with context [handle_obs ?s ob] => destruct (handle_obs_submit h s ob e' (fresh_ext h st s eq_refl Hf) Hl Hs) as [Eh Hb] end.
+    rewrite Eh, bytes_eqb_refl, Hb. reflexivity.
+  - exfalso. eapply Hcontra; [|exact Hl]. apply (fresh_ext h st); [|exact Hf].
+    unfold Processor.handle_inbound. destruct (unmarshal b) as [vb|]; [|reflexivity]. destruct (cur st) as [gc|]; [|reflexivity].
+    repeat match goal with |- context [if ?c then _ else _] => destruct c end; reflexivity.
+  - exfalso. unfold Processor.handle_cleanup in Hl. destruct (cleanup_all st (clock st + 1) (agg st)) as [a o] eqn:Ec. cbn [fst with_agg agg] in Hl.
+    assert (Ha : a = fst (cleanup_all st (clock st + 1) (agg st))) by (rewrite Ec; reflexivity). rewrite Ha in Hl.
+    destruct (cleanup_all_alookup st (clock st + 1) h e' (agg st) ND Hl) as (e0 & H0 & _ & _ & _ & H4).
+    rewrite (Hf e0 H0) in H4. congruence.
+Qed.
+
+Notation stepf := (fun st o => fst (step st o)).
+
+Theorem submitted_was_broadcast h e' : forall ops O L st, Inv1 O L st -> KeysND st -> Forall ProcSpec.op_wf ops -> fresh h st ->
+  alookup h (agg (fst (run st ops))) = Some e' -> submitted e' = true ->
+  happens stepf (fun st o => bcast_for recover keccak sign own gov_chain gov_addr h st o = true) st ops.
+Proof.
+  induction ops as [|o ops IH]; intros O L st HI ND Hw Hf Hl Hs; cbn [Processor.run] in Hl.
+  - cbn [fst] in Hl. rewrite (Hf e' Hl) in Hs. discriminate.
+  - inversion Hw as [|? ? Hw1 Hw2]; subst. cbn [happens].
+    destruct (step_c01 recover keccak sign own gov_chain gov_addr O L st o HI Hw1) as [HI' _].
+    pose proof (step_keys recover keccak sign own gov_chain gov_addr O L st o HI ND) as ND'.
+    destruct (alookup h (agg (fst (step st o)))) as [e1|] eqn:E1.
+    + destruct (submitted e1) eqn:S1.
+      * left. apply (step_submit h st o e1 ND Hf E1 S1).
+      * right. destruct (step st o) as [st1 out1] eqn:Es. cbn [fst] in *. destruct (run st1 ops) as [st2 outs] eqn:Er. cbn [fst] in Hl.
+        apply (IH _ _ st1 HI' ND' Hw2); [|rewrite Er; exact Hl|exact Hs]. intros e He. congruence.
+    + right. destruct (step st o) as [st1 out1] eqn:Es. cbn [fst] in *. destruct (run st1 ops) as [st2 outs] eqn:Er. cbn [fst] in Hl.
+      apply (IH _ _ st1 HI' ND' Hw2); [|rewrite Er; exact Hl|exact Hs]. intros e He. congruence.
+Qed.
+End Pub.
+
 (* ================================================================== 2. the network *)
 Definition calm_nop (x : nop) : bool := match x with NEnv _ (ESetGS _) | NEnv _ ECleanup => false | _ => true end.
 
@@ -374,6 +480,37 @@ Proof.
     unfold ops_of. cbn [filter fst]. destruct (Nat.eqb_spec j i) as [->|Hne].
     + rewrite Hn in Hj. inversion Hj; subst stj. cbn [map snd happens]. right. refine (IH _ _ _ Hev). cbn [nodes]. apply (nth_error_set_nth_same _ _ _ _ Hn).
     + apply (IH _ st); [cbn [nodes]; rewrite nth_error_set_nth_other by congruence; exact Hn|exact Hev].
+Qed.
+
+(* ... and back: an event of node i's projected history is an event of the network *)
+Lemma happens_lower i (P : pstate -> op -> Prop) (Pn : net -> nop -> Prop) :
+  (forall n x st o, nth_error (nodes n) i = Some st -> resolve n x = Some (i, o) -> P st o -> Pn n x) ->
+  forall xs n st, nth_error (nodes n) i = Some st -> happens (stepf i) P st (ops_of i (trace n xs)) -> happens nstepf Pn n xs.
+Proof.
+  intros Hlow. induction xs as [|x xs IH]; intros n st Hn Hev; cbn [System.trace] in Hev; [destruct Hev|]. cbn [happens].
+  destruct (resolve n x) as [[j o]|] eqn:Hr.
+  2:{ right. rewrite (nstep_idle_resolve recover keccak gov_chain gov_addr owns signs n x Hr) in *. cbn [fst] in *. apply (IH n st Hn Hev). }
+  destruct (nth_error (nodes n) j) as [stj|] eqn:Hj.
+  2:{ assert (Hlt' : (j <? length (nodes n))%nat = false) by (apply Nat.ltb_ge; apply nth_error_None; exact Hj). rewrite Hlt' in Hev.
+      right. rewrite (nstep_idle_node recover keccak gov_chain gov_addr owns signs n x j o Hr Hj) in *. cbn [fst] in *. apply (IH n st Hn Hev). }
+  assert (Hlt' : (j <? length (nodes n))%nat = true) by (apply Nat.ltb_lt; apply nth_error_Some; congruence). rewrite Hlt' in Hev.
+  rewrite (nstep_unfold recover keccak gov_chain gov_addr owns signs n x j o stj Hr Hj) in *. cbn [fst] in *.
+  unfold ops_of in Hev. cbn [filter fst] in Hev. destruct (Nat.eqb_spec j i) as [->|Hne].
+  - rewrite Hn in Hj. inversion Hj; subst stj. cbn [map snd happens] in Hev. destruct Hev as [HP|Hev].
+    + left. apply (Hlow n x st o Hn Hr HP).
+    + right. refine (IH _ _ _ Hev). cbn [nodes]. apply (nth_error_set_nth_same _ _ _ _ Hn).
+  - right. apply (IH _ st); [cbn [nodes]; rewrite nth_error_set_nth_other by congruence; exact Hn|exact Hev].
+Qed.
+
+(* "at this network step node i puts a SignedVAAWithQuorum for digest h on the wire" *)
+Definition ev_publishes (i : nat) (h : bytes) (n : net) (x : nop) : Prop :=
+  exists st o, nth_error (nodes n) i = Some st /\ resolve n x = Some (i, o) /\
+               bcast_for recover keccak (signs i) (owns i) gov_chain gov_addr h st o = true.
+
+Lemma ev_publishes_output i h n x : ev_publishes i h n x -> existsb is_bcast (snd (nstep n x)) = true.
+Proof.
+  intros (st & o & Hn & Hr & Hb). rewrite (nstep_unfold recover keccak gov_chain gov_addr owns signs n x i o st Hr Hn). cbn [snd].
+  unfold bcast_for in Hb. destruct (obs_of_op st o); [|discriminate]. apply andb_prop in Hb as [_ Hb]. exact Hb.
 Qed.
 
 (* an honest observer's step: if it signed, what it put on the wire is its observation of the message's digest *)
@@ -448,5 +585,40 @@ Proof.
   - exact Hothers.
   - apply (Hlq _ Hp1).
   - eexists. exists e. split; [exact Hp1|]. repeat split; assumption.
+Qed.
+(* ... and "submitted" is not a flag only: within the window there is a network step at which node i broadcasts the VAA *)
+Theorem net_liveness_publishes N xs0 xs i G m (S : list nat) :
+  (i < N)%nat -> Forall nop_wf xs0 -> Forall nop_wf xs ->
+  let n0 := fst (nrun (ninit N) xs0) in
+  let n1 := fst (nrun n0 xs) in
+  let h := dg (vaa_of_message 0 m) in
+  (forall st0, nth_error (nodes n0) i = Some st0 -> cur st0 = Some G /\ alookup h (agg st0) = None) -> ProcSpec.gs_wf G ->
+  (forall x, In x xs -> target x = i -> calm_nop x = true) ->
+  NoDup (map owns S) -> (forall j, In j S -> honest_member G j) ->
+  go_quorum (Z.of_nat (length (keys G))) <= Z.of_nat (length S) -> In i S ->
+  happens nstepf (ev_observes i m) n0 xs ->
+  (forall j, In j S -> j <> i -> happens nstepf (ev_delivered i j h) n0 xs) ->
+  (forall st, nth_error (nodes n1) i = Some st -> forall o, In o (loopq st) -> o_hash o <> h) ->
+  happens nstepf (ev_publishes i h) n0 xs.
+Proof.
+  intros Hi Hw0 Hw. cbv zeta. intros Hst0 Hgwf Hcalm ND Hhon Hq HiS Hobs Hdel Hlq.
+  destruct (net_liveness N xs0 xs i G m S Hi Hw0 Hw Hst0 Hgwf Hcalm ND Hhon Hq HiS Hobs Hdel Hlq) as (st & e & Hn1 & He & _ & _ & Hsub).
+  set (n0 := fst (nrun (ninit N) xs0)) in *. set (h := dg (vaa_of_message 0 m)) in *.
+  pose proof (projection_init recover keccak gov_chain gov_addr owns signs N xs0 i Hi) as Hp0. fold n0 in Hp0.
+  set (ops0 := ops_of i (trace (ninit N) xs0)) in *.
+  set (st0 := fst (node_run i init ops0)) in *.
+  pose proof (projection recover keccak gov_chain gov_addr owns signs xs n0 i st0 Hp0) as Hp1.
+  rewrite Hp1 in Hn1. inversion Hn1 as [Est]. clear Hn1.
+  assert (Hwf0 : Forall ProcSpec.op_wf ops0) by (apply projected_wf; exact Hw0).
+  assert (Hwf1 : Forall ProcSpec.op_wf (ops_of i (trace n0 xs))) by (apply projected_wf; exact Hw).
+  destruct (reachable_invariants recover keccak (signs i) (owns i) gov_chain gov_addr ops0 Hwf0) as [[O0 HI0] HK0].
+  destruct (Hst0 st0 Hp0) as [_ Hno].
+  apply (happens_lower i (fun st o => bcast_for recover keccak (signs i) (owns i) gov_chain gov_addr h st o = true) (ev_publishes i h)) with (st := st0);
+    [|exact Hp0|].
+  - intros n x st' o Hn Hr Hb. exists st', o. repeat split; assumption.
+  - apply (submitted_was_broadcast recover keccak (signs i) (owns i) gov_chain gov_addr h e (ops_of i (trace n0 xs)) O0 _ st0 HI0 HK0 Hwf1).
+    + intros e0 He0. fold st0 in Hno. rewrite Hno in He0. discriminate.
+    + unfold System.node_run in Est. rewrite Est. exact He.
+    + exact Hsub.
 Qed.
 End LiveNet.
